@@ -312,10 +312,11 @@ func (s *verifMultiSuite) runMulti(c *check.C, op *verifMultiOp) {
 		s.multiEmit(map[string]interface{}{"ev": "MRequest", "op": op, "ok": false, "err": err.Error()}, true)
 		return
 	}
-	var allTasks []*state.Task
+	chg := st.NewChange(op.Kind, "verif "+op.Kind)
 	for _, ts := range tss {
-		allTasks = append(allTasks, ts.Tasks()...)
+		chg.AddAll(ts)
 	}
+	allTasks := chg.Tasks()
 	// group the tasks per snap (by their snap-setup), chain order by dependency depth
 	memo := map[string]int{}
 	bySnap := map[string][]*state.Task{}
@@ -450,15 +451,12 @@ func (s *verifMultiSuite) runMulti(c *check.C, op *verifMultiOp) {
 		eff = append(eff, f)
 	}
 	if op.NeedFault && len(eff) == 0 {
-		// an enumerated fault position that does not exist (any more): nothing to try.  The task sets were not
-		// added to a change: they are never run.
+		// an enumerated fault position that does not exist (any more): nothing to try.  Nothing of the change
+		// has started: aborting it puts every task on Hold (the change is not observed: s.mChg is nil).
+		chg.Abort()
 		return
 	}
 	op.Faults = eff
-	chg := st.NewChange(op.Kind, "verif "+op.Kind)
-	for _, ts := range tss {
-		chg.AddAll(ts)
-	}
 	s.mChg = chg
 	s.multiEmit(map[string]interface{}{"ev": "MRequest", "op": op, "ok": true, "graph": graph, "extra": extra, "strays": strays}, true)
 
